@@ -42,7 +42,10 @@ func propC07(c *Ctx) propInfo {
 		exc: excC07, excP5: excC07P5})
 	if f := c.mustFn("E1.P6-forward-refs", "boc", "DeserializeBoc"); f != nil {
 		env := &e1env{cfg: e1cfg{maxDepth: 0, exc: excC07}, ci: &callIndex{}, reach: map[*ssa.Function]bool{}}
-		c.forwardLinks(f, env)
+		// the linking loop may sit in an unexported helper of DeserializeBoc
+		for _, g := range c.helperClosure(f, 2, func(h *ssa.Function) bool { return plainHelper(h) == nil }) {
+			c.forwardLinks(g, env)
+		}
 	}
 	c.floor("E1.P6-forward-refs", 1)
 	c.parserDepthBound()
@@ -103,13 +106,12 @@ var excC07 = map[string]excEntry{
 	"(*boc.bagOfCells).revisit P2 index *state.cellList[cellIndex]":                                    {"positions in state.cellList are handed out by orderState.add (the index of the element it appends) and recorded in state.cells / refsIndex / rootInfo.index only for cells already added; the list only grows; callers pass root.index or a refsIndex entry", nil},
 	"(*boc.bagOfCells).serializeBoc P2 slice &b[(8-math.Max()):]":                                      {"refByteSize = max(ceil(bits.Len(n)/8), 1) lies in 1..8 because bits.Len <= 64 (the /8 and the rounding are checked by the C01 width rule)", nil},
 	// ---- hashing
-	"(*boc.immutableCell).Hash P2 index *ic.hashes[φindex]":                                                      {"newImmutableCell appends one hash per significant level >= offset; index is HashIndex of a sub-mask (pruned cells use index 0)", nil},
-	"(*boc.immutableCell).Depth P2 index *ic.depths[φindex]":                                                     {"same invariant as hashes", nil},
-	"(*boc.immutableCell).Hash P2 slice *ic.bitsBuf[(2+(_*32)):(2+(_*32))]":                                      {"index < offset = popcount(mask); newImmutableCell rejects a pruned branch whose data is shorter than 2+34*offset bytes", []guardRef{gPruned}},
-	"(*boc.immutableCell).Depth P2 slice *ic.bitsBuf[((2+_)+(_*2)):]":                                            {"index < offset; pruned-branch data length validated by newImmutableCell", []guardRef{gPruned}},
-	"boc.readNBytesUIntFromArray P2 index arr[φi] @ (*boc.immutableCell).Depth call(2,*ic.bitsBuf[(_+_):])":      {"2 bytes remain after 2+32*offset+2*index by the pruned-branch length check", []guardRef{gPruned}},
-	"boc.newImmutableCell P2 index *&complit.hashes[((_-_)-1)]":                                                  {"taken only when hashIndex > offset, i.e. at least one hash was appended before", nil},
-	"boc.newImmutableCell P4 make []*github.com/tonkeeper/tongo/boc.immutableCell len=0 cap=boc.Cell.RefsSize()": {"RefsSize counts the non-nil entries of a [4]*Cell array", nil},
+	// (patterns: the accessors may index through one phi or once per branch; the index is the hash index of a sub-mask or 0)
+	`re:^\(\*boc\.immutableCell\)\.(Hash|Depth) P2 index \*\w+\.(hashes|depths)\[(φ|0|boc\.levelMask\.HashIndex\(\))\]`: {"newImmutableCell appends one hash and one depth per significant level >= offset; the index is HashIndex of a sub-mask of the cell's own mask (pruned cells use index 0 for their own level)", nil},
+	`re:^\(\*boc\.immutableCell\)\.(Hash|Depth) P2 slice \*\w+\.bitsBuf\[`:                                              {"index < offset = popcount(mask); newImmutableCell rejects a pruned branch whose data is shorter than 2+34*offset bytes (the offsets themselves are decided by E7.pruned-accessors)", []guardRef{gPruned}},
+	"boc.readNBytesUIntFromArray P2 index arr[φi] @ (*boc.immutableCell).Depth call(2,*ic.bitsBuf[(_+_):])":           {"2 bytes remain after 2+32*offset+2*index by the pruned-branch length check", []guardRef{gPruned}},
+	"boc.newImmutableCell P2 index *&complit.hashes[((_-_)-1)]":                                                       {"taken only when hashIndex > offset, i.e. at least one hash was appended before", nil},
+	"boc.newImmutableCell P4 make []*github.com/tonkeeper/tongo/boc.immutableCell len=0 cap=boc.Cell.RefsSize()":      {"RefsSize counts the non-nil entries of a [4]*Cell array", nil},
 	// ---- cell parser
 	"boc.deserializeCellData P2 slice φcellData[0:((_>>1)+(_%2))]":                                                                                                                      {"guard len(cellData) >= dataBytesSize + referenceIndexSize*refNum with referenceIndexSize = header.sizeBytes in 1..4 and refNum = d1%8 >= 0", []guardRef{gCellLen, gSizeLo}},
 	"boc.deserializeCellData P2 slice φcellData[((_>>1)+(_%2)):]":                                                                                                                       {"same guard", []guardRef{gCellLen, gSizeLo}},
